@@ -32,9 +32,13 @@ Kernels (DESIGN.md section 4, C08):
       MainProgram.execute: the outcome is the one of the first failure (or a hard error of the cleanup
       instruction) - never INTERNAL_ERROR / an exception.                                        [selector]
 
-Region (known finding; switched on by known_findings.json):
+      K4:act-option: the same with `--act FILE` (before-assert and assert are not executed) and no failure.
+
+Regions (known findings; switched on by known_findings.json):
   C08-cleanup-references-skipped-definition   the definition passed validation but never ran, and a [cleanup]
       instruction evaluates the symbol: KeyError in SymbolTable.lookup -> INTERNAL_ERROR (exit 129)
+  C08-act-option-cleanup-references-skipped-definition   the same, the definition being skipped because its phase
+      ([before-assert] / [assert]) is not executed with --act: traceback, exit 129
 """
 import itertools
 from typing import List
@@ -330,6 +334,14 @@ LINKS = (
     ('path-suffix-2', 'path', '-rel-act @[NEW_LINE]@@[{x}]@', (('NEW_LINE', STR), ('x', STR)), 'act'),
     ('list-quoted', 'list', '"@[{x}]@" b', _x(ANY), None),
     ('path-whole', 'path', '@[{x}]@', _x(PATHSTR(ALL_REL)), ('of', '{x}', 'cwd')),
+    # references in the SUFFIX (file-name components) of a path without a relativity option / after a leading path
+    # symbol / after `-rel SYMBOL`: strings built from strings only
+    ('path-norel-suffix', 'path', 'a/@[{x}]@', _x(STR), 'cwd'),
+    ('path-norel-infix', 'path', 'out-@[{x}]@.txt', _x(STR), 'cwd'),
+    ('path-head-suffix', 'path', '@[EXACTLY_TMP]@/d-@[{x}]@', (('EXACTLY_TMP', PATHSTR(ALL_REL)), ('x', STR)),
+     ('of', 'EXACTLY_TMP', 'cwd')),
+    ('path-rel-sym-suffix', 'path', '-rel EXACTLY_ACT @[{x}]@', (('EXACTLY_ACT', PATH(ALL_REL)), ('x', STR)),
+     ('of', 'EXACTLY_ACT', None)),
     # -- types without string rendering
     ('integer-matcher-ref', 'integer-matcher', '{x}', _x(TYPE('integer-matcher')), None),
     ('integer-matcher-operand', 'integer-matcher', '== @[{x}]@', _x(STR), None),
@@ -351,7 +363,7 @@ LINKS = (
     ('program-name', 'program', '% @[{x}]@', _x(STR), None),
     ('program-name-and-arg', 'program', '% @[OS_PATH_SEP]@ @[{x}]@', (('OS_PATH_SEP', STR), ('x', ANY)), None),
 )
-N_WSTR_LINKS = 12
+N_WSTR_LINKS = 16
 
 # (label, phase, line with {x}, restriction on x)
 CTXS = (
@@ -363,6 +375,10 @@ CTXS = (
     ('dir-rel', 'setup', 'dir -rel {x} d', PATH(REL_WRITE)),
     ('text', 'setup', 'file f.txt = @[{x}]@', TEXT),
     ('act-argument', 'act', '$ echo @[{x}]@', ANY),
+    # references in the suffix of a path (see LINKS)
+    ('file-dst-norel-suffix', 'setup', "file out-@[{x}]@ = 'c'", STR),
+    ('cd-head-suffix', 'setup', 'cd @[EXACTLY_ACT]@/@[{x}]@', STR),
+    ('dir-norel-suffix', 'before-assert', 'dir a/@[{x}]@', STR),
     # -- types without string rendering
     ('line-matcher', 'assert', 'contents f.txt : any line : {x}', TYPE('line-matcher')),
     ('integer-matcher', 'assert', 'exit-code {x}', TYPE('integer-matcher')),
@@ -379,7 +395,7 @@ CTXS = (
     ('assert-integer', 'assert', 'exit-code == @[{x}]@', STR),
     ('string-in-text', 'before-assert', 'file f.txt = "a @[{x}]@ b"', ANY),
 )
-N_WSTR_CTXS = 8
+N_WSTR_CTXS = 11
 _CTX_LABELS = [c[0] for c in CTXS]
 MATCHING_CTX = {'string': _CTX_LABELS.index('argument'), 'list': _CTX_LABELS.index('argument'),
                 'path': _CTX_LABELS.index('argument')}
@@ -410,7 +426,7 @@ def chain_program(const, links, ctx, model_cls=Model):
         if ok:
             rel = lrel
             if isinstance(lrel, tuple):
-                rel = ('of', prev, lrel[2])
+                rel = ('of', (prev if lrel[1] == '{x}' else lrel[1]), lrel[2])
             refs = [((prev if who == 'x' else who), restr) for who, restr in lrefs]
             ok = m.define(name, Sym(ltype, [n for n, _ in refs], rel=rel), refs)
             defs[name] = (ltype, None)
@@ -1008,6 +1024,47 @@ def k4_cleanup_reference(f: int, dp: int, after: bool, rf: int) -> bool:
     return ob.post(ok)
 
 
+# ---------------------------------------------------------------------------- K4: --act
+
+REGION_ACT_OPTION = 'C08-act-option-cleanup-references-skipped-definition'
+
+
+def _k4a_skipped(dphase: str) -> bool:
+    """With --act the phases before-assert and assert are not executed; setup, act and cleanup are."""
+    return dphase in ('before-assert', 'assert')
+
+
+def _pre_k4a(dp: int, rf: int) -> bool:
+    case = ob.case()
+    if not (0 <= dp < len(K4_DEF_PHASES) and rf in case['refs']):
+        return False
+    if ob.excluded(REGION_ACT_OPTION) and _k4a_skipped(K4_DEF_PHASES[dp]) and rf < K4_N_EVALUATING_REFS:
+        # known finding: the definition was validated but its phase is not executed with --act; [cleanup] evaluates it
+        return False
+    return True
+
+
+def k4_act_option(dp: int, rf: int) -> bool:
+    """
+    pre: _pre_k4a(dp, rf)
+    post: _
+    """
+    case = ob.case()
+    dp = ob.concrete_int(dp, 0, len(K4_DEF_PHASES) - 1)
+    rf = ob.concrete_int(rf, 0, len(K4_REFS) - 1)
+    r = lib.run_cli(k4_text(0, dp, False, rf), ('--act',))
+    if r['exc'] is not None:
+        return ob.post(False)
+    want = 0  # --act: the exit code is the one of the action to check (the stub process exits with 0)
+    if case.get('oracle_bug'):
+        want = 1
+    if _k4a_skipped(K4_DEF_PHASES[dp]) and rf < K4_N_EVALUATING_REFS:
+        # the symbol cannot evaluate to its defined value: the exit code of the action, or a hard error of the cleanup
+        # instruction - but no internal error
+        return ob.post(r['rc'] in (want, 128) and 'Traceback' not in r['stderr'])
+    return ob.post(r['rc'] == want and 'Traceback' not in r['stderr'])
+
+
 # ============================================================================ obligations
 
 def _order_ob(name, phases, kinds, names, layouts, timeout, **extra):
@@ -1142,8 +1199,12 @@ def obligations(tier: str) -> List[Ob]:
     x2 = [xl[x] for x in ('argument', 'integer', 'file-dst', 'dir-rel', 'copy-src', 'text')]
     for c in c2:
         obs.append(_types_ob('K1:types:chain2:%s' % CONSTS[c][0], 2, [c], l2, x2[:4], 900))
+    x1 = [xl[x] for x in ('argument', 'integer', 'cd', 'file-dst', 'dir-rel', 'file-dst-norel-suffix', 'cd-head-suffix')]
     for i, ls in enumerate(_chunks(list(range(N_WSTR_LINKS)), 6)):
-        obs.append(_types_ob('K1:types:chain1:%d' % i, 1, c2, ls, list(range(N_WSTR_CTXS)), 900))
+        obs.append(_types_ob('K1:types:chain1:%d' % i, 1, c2, ls, x1, 900))
+    if thorough:
+        for i, ls in enumerate(_chunks(list(range(N_WSTR_LINKS)), 6)):
+            obs.append(_types_ob('K1:types:chain1-all-contexts:%d' % i, 1, c2, ls, list(range(N_WSTR_CTXS)), 900))
     if thorough:
         for x in all_x:
             obs.append(_types_ob('K1:types:direct+1:%s' % CTXS[x][0], 1, one_per_type, all_l, [x], 1800))
@@ -1256,6 +1317,15 @@ def obligations(tier: str) -> List[Ob]:
                       timeout=2400, real=REAL_K4, stubs=_STUBS_CLI + ('the stub process named %s exits with 1' % lib.FAILING_PROGRAM,),
                       entry='MainProgram.execute([FILE])',
                       outside=('failures other than the catalogued', 'references from [cleanup] other than the catalogued')))
+    obs.append(Ob(name='K4:act-option', fn='k4_act_option', case=dict(refs=tuple(range(len(K4_REFS))) if thorough else (0, 4)),
+                  kernel='K4', selector=True,
+                  bound='command line --act FILE; `def string S = x` in any of %s; [cleanup] holds one of %s' % (
+                      list(K4_DEF_PHASES), [K4_REFS[i] for i in (range(len(K4_REFS)) if thorough else (0, 4))]),
+                  timeout=1800, real=REAL_K4, stubs=_STUBS_CLI, entry='MainProgram.execute(["--act", FILE])',
+                  outside=('references from [cleanup] other than the catalogued',)))
+    obs.append(_refute(Ob(name='K4:act-option:seeded-oracle-error', fn='k4_act_option', case=dict(refs=(4,), oracle_bug=True),
+                          kernel='K4', selector=True, bound='seeded: the oracle expects exit code 1 from an action that exits with 0',
+                          timeout=900)))
     obs.append(_refute(Ob(name='K4:seeded-oracle-error', fn='k4_cleanup_reference', case=dict(failures=(5,), refs=(4,), oracle_bug=True),
                           kernel='K4', selector=True, bound='seeded: the oracle expects PASS although an assertion fails',
                           timeout=900)))
